@@ -27,6 +27,9 @@ impl std::fmt::Debug for FnV { fn fmt(&self, f: &mut std::fmt::Formatter<'_>) ->
 pub enum Ctl {
     /// runtime value-domain error (builtin domain error, ...)
     Error(String),
+    /// the program is ill-typed under the spec (field that does not exist, argument outside the declared parameter type, ...):
+    /// a compiler that accepts it has a type hole (C01); its value is not defined (C02 does not judge it)
+    TypeError(String),
     Unsupported(String),
     Tail(Rc<FnV>, RV),
     Budget,
@@ -122,6 +125,7 @@ impl Interp {
             self.in_argument = followed && matches!(term, Term::Tuple(_));
             flowing = self.eval_term(term, flowing, env)?;
             self.in_argument = false;
+            if followed && matches!(term, Term::Match(_)) && flowing.is_nil() { self.bump("failed_match_then_more_terms_in_chain"); }
             if let (Term::Function(f), RV::Fn(fv)) = (term, &mut flowing) { if f.parameter_type.is_none() && f.body.is_some() && followed { if let Some(m) = Rc::get_mut(fv) { m.maybe_inferred = true; } } }
         }
         if let Some(pat) = &chain.match_pattern { return self.do_match(pat, &flowing, env); }
@@ -220,9 +224,9 @@ impl Interp {
 
     fn access_path(&mut self, mut v: RV, accessors: &[AccessPath]) -> R<RV> {
         for a in accessors {
-            let RV::Tuple(t) = &v else { return Err(Ctl::Error("field access on non-tuple".into())) };
+            let RV::Tuple(t) = &v else { return Err(Ctl::TypeError("field access on non-tuple".into())) };
             let next = match a { AccessPath::Field(n) => t.fields.iter().find(|(l, _)| l.as_deref() == Some(n.as_str())).map(|x| x.1.clone()), AccessPath::Index(i) => t.fields.get(*i).map(|x| x.1.clone()) };
-            v = match next { Some(x) => x, None => return Err(Ctl::Error("no such field".into())) };
+            v = match next { Some(x) => x, None => return Err(Ctl::TypeError("no such field".into())) };
         }
         Ok(v)
     }
@@ -258,6 +262,8 @@ impl Interp {
                     // only the type checker knows: a non-nil argument reaching it is outside this evaluator
                     if cur.maybe_inferred && !a.is_nil() { return unsup("untyped function literal applied to a non-nil argument (parameter may be inferred)"); }
                     let param = if cur.nilary { nil() } else { a };
+                    // the declared parameter type is part of the program: an argument outside it makes the call ill-typed
+                    if let Some(pt) = cur.def.parameter_type.clone() { let fenv = cur.env.clone(); match self.type_member(&param, &pt, &fenv, &mut vec![]) { Ok(true) => {} Ok(false) => return Err(Ctl::TypeError("argument outside the declared parameter type".into())), Err(Ctl::Unsupported(_)) => {} Err(e) => return Err(e) } }
                     let Some(body) = &cur.def.body else { return Ok(param) };
                     let env = cur.env.bind("$", Entry::Val(param.clone())).bind("^self", Entry::Val(RV::Fn(cur.clone())));
                     match self.eval_block(body, param, &env) {
@@ -266,7 +272,7 @@ impl Interp {
                     }
                 }
             }
-            _ => unsup("apply of a non-callable"),
+            _ => Err(Ctl::TypeError("apply of a non-callable".into())),
         }
     }
 
@@ -287,10 +293,10 @@ impl Interp {
     fn builtin(&mut self, name: &str, arg: RV) -> R<RV> {
         let Some((bname, sig)) = c12::SIGS.iter().find(|(n, _)| *n == name) else { return unsup("builtin without a model") };
         let to_arg = |v: &RV, ch: char| -> Option<c12::Arg> { match (v, ch) { (RV::Int(i), 'i') => Some(c12::Arg::Int(i.clone())), (RV::Bin(b), 'b') => Some(c12::Arg::Bin((**b).clone(), 0)), _ => None } };
-        let args: Vec<c12::Arg> = if sig.len() == 1 { match to_arg(&arg, sig.chars().next().unwrap()) { Some(a) => vec![a], None => return unsup("builtin argument of unexpected kind") } } else {
-            let RV::Tuple(t) = &arg else { return unsup("builtin argument is not a tuple") };
-            if t.fields.len() != sig.len() { return unsup("builtin arity") }
-            let mut v = vec![]; for ((_, f), ch) in t.fields.iter().zip(sig.chars()) { match to_arg(f, ch) { Some(a) => v.push(a), None => return unsup("builtin argument of unexpected kind") } } v };
+        let args: Vec<c12::Arg> = if sig.len() == 1 { match to_arg(&arg, sig.chars().next().unwrap()) { Some(a) => vec![a], None => return Err(Ctl::TypeError("builtin argument of unexpected kind".into())) } } else {
+            let RV::Tuple(t) = &arg else { return Err(Ctl::TypeError("builtin argument is not a tuple".into())) };
+            if t.fields.len() != sig.len() { return Err(Ctl::TypeError("builtin arity".into())) }
+            let mut v = vec![]; for ((_, f), ch) in t.fields.iter().zip(sig.chars()) { match to_arg(f, ch) { Some(a) => v.push(a), None => return Err(Ctl::TypeError("builtin argument of unexpected kind".into())) } } v };
         let case = c12::Case { name: bname, args, single: sig.len() == 1 };
         let from = |m: &c12::MVal| match m { c12::MVal::Int(i) => RV::Int(i.clone()), c12::MVal::Bin(b) => RV::Bin(Rc::new(b.clone())), c12::MVal::Nil => nil() };
         match c12::model(&case) {
@@ -306,7 +312,7 @@ impl Interp {
     fn matches(&mut self, pat: &Match, v: &RV, env: &Env, binds: &mut Vec<(String, RV)>) -> R<bool> {
         self.tick()?;
         Ok(match pat {
-            Match::Identifier(n, _) => { if let Some((_, prev)) = binds.iter().find(|(b, _)| b == n) { let p = prev.clone(); self.equal(&p, v)? } else { binds.push((n.clone(), v.clone())); true } }
+            Match::Identifier(n, _) => { if let Some((_, prev)) = binds.iter().find(|(b, _)| b == n) { let p = prev.clone(); self.equal(&p, v)? } else { if v.is_nil() { self.bump("nil_bound_by_bare_binder"); } binds.push((n.clone(), v.clone())); true } }
             Match::Placeholder => true,
             Match::Literal(Literal::Integer(i)) => matches!(v, RV::Int(x) if x == i),
             Match::Literal(Literal::Binary(b)) => matches!(v, RV::Bin(x) if **x == *b),
@@ -323,20 +329,28 @@ impl Interp {
                 if pp.name.is_some() && t.name != pp.name { return Ok(false); }
                 for f in &pp.fields {
                     let Some((_, fv)) = t.fields.iter().find(|(l, _)| l.as_deref() == Some(f.name.as_str())) else { return Ok(false) };
-                    match &f.pattern { Some(p) => if !self.matches(p, fv, env, binds)? { return Ok(false); }, None => binds.push((f.name.clone(), fv.clone())) }
+                    match &f.pattern { Some(p) => if !self.matches(p, fv, env, binds)? { return Ok(false); }, None => if !self.bind_or_equal(&f.name, fv, binds)? { return Ok(false); } }
                 }
                 true
             }
             Match::Star(n) => {
                 let RV::Tuple(t) = v else { return Ok(false) };
                 if n.is_some() && t.name != *n { return Ok(false); }
-                for (l, fv) in &t.fields { if let Some(l) = l { binds.push((l.clone(), fv.clone())); } }
+                for (l, fv) in &t.fields { if let Some(l) = l { if !self.bind_or_equal(l, fv, binds)? { return Ok(false); } } }
                 true
             }
             Match::Type(ty) => self.type_member(v, ty, env, &mut vec![])?,
             Match::As(ty, n, _) => { if self.type_member(v, ty, env, &mut vec![])? { binds.push((n.clone(), v.clone())); true } else { false } }
             Match::Or(alts) => { for a in alts { let mut b2 = binds.clone(); if self.matches(a, v, env, &mut b2)? { *binds = b2; return Ok(true); } } false }
         })
+    }
+
+    /// a name bound twice in one pattern must see equal values (the rule for repeated identifiers, applied to implicit binders too)
+    fn bind_or_equal(&mut self, n: &str, v: &RV, binds: &mut Vec<(String, RV)>) -> R<bool> {
+        if let Some((_, prev)) = binds.iter().find(|(b, _)| b == n) { let p = prev.clone(); return self.equal(&p, v); }
+        if v.is_nil() { self.bump("nil_bound_by_bare_binder"); }
+        binds.push((n.to_string(), v.clone()));
+        Ok(true)
     }
 
     pub fn equal(&mut self, a: &RV, b: &RV) -> R<bool> {
@@ -417,12 +431,12 @@ pub fn std_sources(repo: &str) -> HashMap<String, String> {
 }
 
 #[derive(Debug)]
-pub enum Outcome { Value(CV), Error(String), Unsupported(String), Budget }
+pub enum Outcome { Value(CV), Error(String), TypeError(String), Unsupported(String), Budget }
 
 pub fn evaluate(src: &str, modules: &HashMap<String, String>) -> (Outcome, HashMap<&'static str, u64>) {
     let Ok(ast) = quiver_compiler::parse(src) else { return (Outcome::Unsupported("does not parse".into()), HashMap::new()) };
     let mut it = Interp::new(modules.clone());
     let r = it.run_program(&ast);
-    let o = match r { Ok(v) => Outcome::Value(v.to_cv()), Err(Ctl::Error(m)) => Outcome::Error(m), Err(Ctl::Unsupported(m)) => Outcome::Unsupported(m), Err(Ctl::Budget) => Outcome::Budget, Err(Ctl::Tail(..)) => Outcome::Unsupported("tail call at top level".into()) };
+    let o = match r { Ok(v) => Outcome::Value(v.to_cv()), Err(Ctl::Error(m)) => Outcome::Error(m), Err(Ctl::TypeError(m)) => Outcome::TypeError(m), Err(Ctl::Unsupported(m)) => Outcome::Unsupported(m), Err(Ctl::Budget) => Outcome::Budget, Err(Ctl::Tail(..)) => Outcome::Unsupported("tail call at top level".into()) };
     (o, it.counters)
 }
